@@ -199,6 +199,76 @@ def _canonicalise_subscripts(tree):
     return count
 
 
+def _scalar_constant(e):
+    """a numeric / string / bool / None literal, possibly negated; or a tuple of such"""
+    if isinstance(e, ast.Constant) and (e.value is None or isinstance(e.value, (int, float, str, bool))):
+        return True
+    if isinstance(e, ast.UnaryOp) and isinstance(e.op, (ast.USub, ast.UAdd)) and isinstance(e.operand, ast.Constant) and isinstance(e.operand.value, (int, float)) \
+            and not isinstance(e.operand.value, bool):
+        return True
+    if isinstance(e, ast.Tuple) and e.elts and all(_scalar_constant(x) and not isinstance(x, ast.Tuple) for x in e.elts):
+        return True
+    # arithmetic over numeric literals (2**32 - 1)
+    if isinstance(e, ast.BinOp) and isinstance(e.op, (ast.Add, ast.Sub, ast.Mult, ast.Pow, ast.FloorDiv, ast.Div, ast.Mod, ast.LShift)):
+        def num(x):
+            return (isinstance(x, ast.Constant) and isinstance(x.value, (int, float)) and not isinstance(x.value, bool)) or \
+                (isinstance(x, ast.BinOp) and isinstance(x.op, (ast.Add, ast.Sub, ast.Mult, ast.Pow, ast.FloorDiv, ast.Div, ast.Mod, ast.LShift)) and num(x.left) and num(x.right)) or \
+                (isinstance(x, ast.UnaryOp) and isinstance(x.op, (ast.USub, ast.UAdd)) and num(x.operand))
+        return num(e)
+    return False
+
+
+def _canonicalise_module_constants(tree):
+    """A module-level name bound ONCE to a literal (number, string, None, or a tuple of them) and never rebound anywhere in the module is read as that literal:
+    `self.t_cur = _T_START` with `_T_START = 0` at module level is `self.t_cur = 0`.  Names listed in __all__ are left alone."""
+    import copy
+    binds = {}
+    for st in tree.body:
+        if isinstance(st, ast.Assign) and len(st.targets) == 1 and isinstance(st.targets[0], ast.Name) and _scalar_constant(st.value):
+            binds.setdefault(st.targets[0].id, []).append(st.value)
+        elif isinstance(st, ast.AnnAssign) and isinstance(st.target, ast.Name) and st.value is not None and _scalar_constant(st.value):
+            binds.setdefault(st.target.id, []).append(st.value)
+    if not binds:
+        return 0
+    stores = {}
+    for n in ast.walk(tree):
+        if isinstance(n, ast.Name) and isinstance(n.ctx, (ast.Store, ast.Del)):
+            stores[n.id] = stores.get(n.id, 0) + 1
+        elif isinstance(n, ast.arg):
+            stores[n.arg] = stores.get(n.arg, 0) + 2
+        elif isinstance(n, (ast.FunctionDef, ast.AsyncFunctionDef, ast.ClassDef)):
+            stores[n.name] = stores.get(n.name, 0) + 2
+        elif isinstance(n, (ast.Import, ast.ImportFrom)):
+            for a in n.names:
+                nm = a.asname or a.name.split(".")[0]
+                stores[nm] = stores.get(nm, 0) + 2
+        elif isinstance(n, (ast.Global, ast.Nonlocal)):
+            for nm in n.names:
+                stores[nm] = stores.get(nm, 0) + 2
+        elif isinstance(n, ast.ExceptHandler) and n.name:
+            stores[n.name] = stores.get(n.name, 0) + 2
+    consts = {k: v[0] for k, v in binds.items() if len(v) == 1 and stores.get(k, 0) == 1 and k != "__all__" and not (k.startswith("__") and k.endswith("__"))}
+    if not consts:
+        return 0
+    count = 0
+
+    class T(ast.NodeTransformer):
+        def visit_Name(self, n):
+            nonlocal count
+            if isinstance(n.ctx, ast.Load) and n.id in consts:
+                count += 1
+                return ast.copy_location(copy.deepcopy(consts[n.id]), n)
+            return n
+    for st in tree.body:
+        if isinstance(st, (ast.FunctionDef, ast.AsyncFunctionDef, ast.ClassDef)):
+            T().visit(st)
+    for n in ast.walk(tree):
+        for c in ast.iter_child_nodes(n):
+            if isinstance(c, (ast.expr, ast.stmt)) and not hasattr(c, "lineno") and hasattr(n, "lineno"):
+                ast.copy_location(c, n)
+    return count
+
+
 _NEGCMP = {ast.NotEq: ast.Eq, ast.IsNot: ast.Is, ast.NotIn: ast.In}
 
 
@@ -338,6 +408,7 @@ class Module:
         self.tree = ast.parse(src, filename=path)
         _canonicalise_comparisons(self.tree)
         self.aliases_canonicalised = 0 if os.environ.get("VERIF_NO_ALIAS_CANON") == "1" else _canonicalise_import_aliases(self.tree)
+        self.constants_canonicalised = 0 if os.environ.get("VERIF_NO_CONST_CANON") == "1" else _canonicalise_module_constants(self.tree)
         self.subscripts_canonicalised = 0 if os.environ.get("VERIF_NO_SUBSCRIPT_CANON") == "1" else _canonicalise_subscripts(self.tree)
         self.branches_canonicalised = 0 if os.environ.get("VERIF_NO_BRANCH_CANON") == "1" else _canonicalise_branches(self.tree)
         self.temporaries_canonicalised = 0 if os.environ.get("VERIF_NO_TEMP_CANON") == "1" else _canonicalise_temporaries(self.tree)
@@ -449,6 +520,100 @@ def _index_class(ci):
                 ci.class_attrs[st.target.id] = st.value
 
 
+def _const_truth(e):
+    """truth value of a literal test, or None"""
+    if isinstance(e, ast.Constant):
+        return bool(e.value)
+    if isinstance(e, ast.Compare) and len(e.ops) == 1 and isinstance(e.left, ast.Constant) and isinstance(e.comparators[0], ast.Constant):
+        l, r = e.left.value, e.comparators[0].value
+        op = e.ops[0]
+        if isinstance(op, ast.Is):
+            return (l is r) if (l is None or r is None or isinstance(l, bool) or isinstance(r, bool)) else None
+        if isinstance(op, ast.IsNot):
+            return (l is not r) if (l is None or r is None or isinstance(l, bool) or isinstance(r, bool)) else None
+        try:
+            if isinstance(op, ast.Eq):
+                return l == r
+            if isinstance(op, ast.NotEq):
+                return l != r
+        except Exception:
+            return None
+        return None
+    if isinstance(e, ast.UnaryOp) and isinstance(e.op, ast.Not):
+        t = _const_truth(e.operand)
+        return None if t is None else (not t)
+    if isinstance(e, ast.BoolOp):
+        ts = [_const_truth(v) for v in e.values]
+        if isinstance(e.op, ast.And):
+            if any(t is False for t in ts):
+                return False
+            return True if all(t is True for t in ts) else None
+        if any(t is True for t in ts):
+            return True
+        return False if all(t is False for t in ts) else None
+    return None
+
+
+def _fold_constant_tests(fnode):
+    """after a parameter was replaced by its literal default: `a if None is None else b` -> a; `if None is not None: S` -> removed; and / or with a decided operand"""
+    class F(ast.NodeTransformer):
+        def visit_IfExp(self, n):
+            self.generic_visit(n)
+            t = _const_truth(n.test)
+            return n if t is None else (n.body if t else n.orelse)
+
+        def visit_BoolOp(self, n):
+            self.generic_visit(n)
+            keep = []
+            for v in n.values:
+                t = _const_truth(v)
+                if isinstance(n.op, ast.And):
+                    if t is True and not isinstance(v, ast.Constant):
+                        continue
+                    if t is True and isinstance(v, ast.Constant) and len(n.values) > 1:
+                        continue
+                else:
+                    if t is False:
+                        continue
+                keep.append(v)
+            if not keep:
+                return ast.copy_location(ast.Constant(value=isinstance(n.op, ast.And)), n)
+            if len(keep) == 1:
+                return keep[0]
+            n.values = keep
+            return n
+
+    def block(stmts):
+        out = []
+        for st in stmts:
+            for fld in ("body", "orelse", "finalbody"):
+                v = getattr(st, fld, None)
+                if isinstance(v, list) and v and isinstance(v[0], ast.stmt):
+                    setattr(st, fld, block(v) or ([ast.copy_location(ast.Pass(), st)] if fld == "body" else []))
+            if isinstance(st, ast.Try):
+                for h in st.handlers:
+                    h.body = block(h.body) or [ast.copy_location(ast.Pass(), st)]
+            if isinstance(st, ast.If):
+                t = _const_truth(st.test)
+                if t is True:
+                    out.extend(st.body)
+                    continue
+                if t is False:
+                    out.extend(st.orelse)
+                    continue
+            out.append(st)
+        return out
+    F().visit(fnode)
+    fnode.body = block(fnode.body) or [ast.Pass()]
+
+
+# method names that numpy arrays / containers / strings also have: a call obj.<name>(...) on an unknown receiver is not taken for the package's method
+_BUILTIN_METHOD_NAMES = {"copy", "sum", "mean", "max", "min", "std", "var", "any", "all", "sort", "reshape", "get", "items", "keys", "values", "update", "append", "insert",
+                         "remove", "pop", "index", "count", "format", "join", "split", "astype", "dot", "take", "repeat", "fill", "flatten", "ravel", "transpose", "choice",
+                         "shuffle", "uniform", "normal", "random", "seed", "select", "delete", "concat", "argsort", "argmax", "argmin", "cumsum", "prod", "round", "clip",
+                         "squeeze", "tolist", "item", "view", "read", "write", "close", "group", "add", "extend", "clear", "setdefault", "find", "replace", "strip"}
+
+
 class Program:
     def __init__(self, repo=None, exclude=("pybrops/test",)):
         self.repo = repo or REPO
@@ -459,8 +624,29 @@ class Program:
         self.parse_errors = []
         self._load(exclude)
         self.calls_canonicalised = 0
+        self.methods_by_name = {}
+        for m in self.modules.values():
+            for c in m.classes.values():
+                for f in c.methods.values():
+                    self.methods_by_name.setdefault(f.name, []).append(f)
+        self.reference = None
+        if os.environ.get("VERIF_NO_REFERENCE") != "1":
+            try:
+                import json
+                with open(os.path.join(os.path.dirname(os.path.abspath(__file__)), "reference.json")) as fh:
+                    self.reference = json.load(fh)
+            except (OSError, ValueError):
+                self.reference = None
         if os.environ.get("VERIF_NO_CALL_CANON") != "1":
             self._canonicalise_calls()
+        self.new_params_specialised = 0
+        self.default_args_dropped = 0
+        if os.environ.get("VERIF_NO_DEFAULT_CANON") != "1":
+            for _round in range(4):
+                before = (self.new_params_specialised, self.default_args_dropped)
+                self._canonicalise_defaults()
+                if (self.new_params_specialised, self.default_args_dropped) == before:
+                    break
 
     # ------------------------------------------------------------------ loading
     def _load(self, exclude):
@@ -541,6 +727,211 @@ class Program:
             moved = True
         if moved:
             self.calls_canonicalised += 1
+
+
+    def signature_by_method_name(self, name, used=()):
+        """positional parameter names (without the receiver) shared by EVERY method of that name in the package (that has the keyword names `used`), or None"""
+        cands = [c for c in self.methods_by_name.get(name, []) if set(used) <= {a.arg for a in c.node.args.args + c.node.args.kwonlyargs}]
+        sigs = {tuple(a.arg for a in c.node.args.args[(0 if c.kind == "staticmethod" else 1):]) for c in cands}
+        if cands and len(sigs) == 1 and all(c.node.args.vararg is None and not c.node.args.posonlyargs for c in cands):
+            return list(next(iter(sigs)))
+        return None
+
+    def positional_view(self, call):
+        """copy of a call on some object (obj.m(...)) with its keyword arguments moved to their positions when every method `m` of the package agrees on the
+        parameter order; the call itself otherwise.  For rules that compare a call with a reference written positionally."""
+        import copy
+        if not (isinstance(call, ast.Call) and isinstance(call.func, ast.Attribute) and call.keywords) or any(isinstance(a, ast.Starred) for a in call.args):
+            return call
+        used = {k.arg for k in call.keywords if k.arg is not None}
+        pn = self.signature_by_method_name(call.func.attr, used)
+        if pn is None:
+            return call
+        c = copy.deepcopy(call)
+        kw = {k.arg: k for k in c.keywords if k.arg is not None}
+        while len(c.args) < len(pn) and pn[len(c.args)] in kw:
+            k = kw.pop(pn[len(c.args)])
+            c.args.append(k.value)
+            c.keywords.remove(k)
+        return c
+
+    # ------------------------------------------------------------------ defaults
+    def _resolve_callee(self, m, cls, call):
+        """(FuncInfo, number of leading receiver parameters) of a call whose callee resolves inside the package, else (None, 0)"""
+        try:
+            if isinstance(call.func, ast.Name):
+                t = self.resolve_name(m, call.func.id)
+                if isinstance(t, FuncInfo):
+                    return t, 0
+            elif isinstance(call.func, ast.Attribute) and isinstance(call.func.value, ast.Name) and call.func.value.id in ("self", "cls") and cls is not None \
+                    and self.mro(cls) is not None:
+                t = self.lookup_method(cls, call.func.attr)
+                if isinstance(t, FuncInfo) and t.kind in ("method", "classmethod", "staticmethod"):
+                    return t, (0 if t.kind == "staticmethod" else 1)
+        except Exception:
+            pass
+        return None, 0
+
+    def _calls_with_context(self):
+        """every Call node of the package with its module and enclosing class"""
+        out = []
+
+        def walk(m, node, cls):
+            for ch in ast.iter_child_nodes(node):
+                if isinstance(ch, ast.ClassDef):
+                    walk(m, ch, m.classes.get(ch.name) if node is m.tree else None)
+                else:
+                    walk(m, ch, cls)
+            if isinstance(node, ast.Call):
+                out.append((m, cls, node))
+        for m in self.modules.values():
+            walk(m, m.tree, None)
+        return out
+
+    def _canonicalise_defaults(self):
+        """
+        (1) An argument written at a call that is the literal the callee already has as default for that parameter is dropped: f(a, shuffle=True) with
+            `def f(a, shuffle=True)` is read as f(a).
+        (2) A parameter that today's API does not have (it is not in sa/reference.json for that function), has a literal default and is bound by no call in the
+            package is read as its default throughout the body, tests on it are folded (`x if out is None else out` -> `x`), and it is taken out of the
+            signature: the function is analysed as every existing caller runs it.
+        """
+        import copy
+        calls = self._calls_with_context()
+
+        def defaults_of(f, skip):
+            a = f.node.args
+            pos = a.args[skip:] if not a.posonlyargs else None
+            if pos is None:
+                return None, None
+            nd = len(a.defaults)
+            dmap = {}
+            allpos = a.args
+            for x, d in zip(allpos[len(allpos) - nd:], a.defaults):
+                dmap[x.arg] = d
+            for x, d in zip(a.kwonlyargs, a.kw_defaults):
+                if d is not None:
+                    dmap[x.arg] = d
+            return [x.arg for x in pos], dmap
+
+        def literal(e):
+            return _scalar_constant(e) and not isinstance(e, ast.Tuple)
+
+        # (2) candidates first: (function, parameter) pairs that are new
+        new = {}
+        if self.reference is not None:
+            ref = self.reference.get("signatures", {})
+            for f in self.all_functions():
+                if f.qualname not in ref or f.kind in ("getter", "setter"):
+                    continue
+                _pn, dmap = defaults_of(f, 0)
+                if dmap is None:
+                    continue
+                for p in f.params():
+                    if p not in ref[f.qualname] and p in dmap and (literal(dmap[p]) or self._external_constant(f.module, dmap[p])):
+                        stored = any(isinstance(n, ast.Name) and n.id == p and isinstance(n.ctx, (ast.Store, ast.Del)) for n in ast.walk(f.node))
+                        if not stored:
+                            new[(id(f.node), p)] = (f, p, dmap[p])
+        bound_somewhere = set()
+        for m, cls, call in calls:
+            if any(isinstance(a, ast.Starred) for a in call.args):
+                continue
+            callee, skip = self._resolve_callee(m, cls, call)
+            cands = [(callee, skip)] if callee is not None else []
+            if callee is None and isinstance(call.func, ast.Attribute):
+                cands = [(c, 0 if c.kind == "staticmethod" else 1) for c in self.methods_by_name.get(call.func.attr, [])]
+            elif callee is None and isinstance(call.func, ast.Name):
+                # a class being constructed: its __init__
+                t = None
+                try:
+                    t = self.resolve_name(m, call.func.id)
+                except Exception:
+                    pass
+                if isinstance(t, ClassInfo):
+                    ini = self.lookup_method(t, "__init__") if self.mro(t) is not None else t.methods.get("__init__")
+                    if ini is not None:
+                        cands = [(ini, 1)]
+            for c, sk in cands:
+                pn, dmap = defaults_of(c, sk)
+                if pn is None:
+                    continue
+                # (1) drop literal arguments equal to the default (resolved callees only)
+                if c is callee:
+                    changed = True
+                    while changed:
+                        changed = False
+                        for k in list(call.keywords):
+                            if k.arg is not None and k.arg in dmap and literal(k.value) and literal(dmap[k.arg]) and ast.dump(k.value) == ast.dump(dmap[k.arg]):
+                                call.keywords.remove(k)
+                                self.default_args_dropped += 1
+                                changed = True
+                        if call.args and not call.keywords and len(call.args) <= len(pn) and c.node.args.vararg is None:
+                            pname = pn[len(call.args) - 1]
+                            last = call.args[-1]
+                            if pname in dmap and literal(last) and literal(dmap[pname]) and ast.dump(last) == ast.dump(dmap[pname]):
+                                call.args.pop()
+                                self.default_args_dropped += 1
+                                changed = True
+                # which new parameters does this call bind?
+                for i, a in enumerate(call.args):
+                    if i < len(pn) and (id(c.node), pn[i]) in new:
+                        bound_somewhere.add((id(c.node), pn[i]))
+                    if i >= len(pn) and c.node.args.vararg is None:
+                        pass
+                for k in call.keywords:
+                    # (a **mapping passed on cannot name a parameter that today's callers do not know; an explicit keyword anywhere in the package can)
+                    if k.arg is not None and (id(c.node), k.arg) in new:
+                        bound_somewhere.add((id(c.node), k.arg))
+        for key, (f, p, d) in new.items():
+            if key in bound_somewhere:
+                continue
+            self._specialise_param(f, p, d)
+            self.new_params_specialised += 1
+
+    def _external_constant(self, mod, e):
+        """numpy.nan / numpy.inf / math.pi ... : a dotted constant of an outside module"""
+        try:
+            d = self.dotted(mod, e) if isinstance(e, ast.Attribute) else None
+        except Exception:
+            d = None
+        return d in ("numpy.nan", "numpy.inf", "numpy.NaN", "numpy.pi", "math.inf", "math.nan", "math.pi", "numpy.newaxis")
+
+    def _specialise_param(self, f, p, default):
+        import copy
+
+        class Sub(ast.NodeTransformer):
+            def visit_Name(self_, n):
+                if n.id == p and isinstance(n.ctx, ast.Load):
+                    return ast.copy_location(copy.deepcopy(default), n)
+                return n
+
+            def visit_FunctionDef(self_, n):
+                # a nested function that rebinds the name keeps its own
+                if n is not f.node and any(x.arg == p for x in n.args.args + n.args.kwonlyargs):
+                    return n
+                self_.generic_visit(n)
+                return n
+
+            def visit_Lambda(self_, n):
+                if any(x.arg == p for x in n.args.args + n.args.kwonlyargs):
+                    return n
+                self_.generic_visit(n)
+                return n
+        f.node.body = [Sub().visit(st) for st in f.node.body]
+        a = f.node.args
+        # take the parameter (and its default) out of the signature
+        if any(x.arg == p for x in a.kwonlyargs):
+            i = [x.arg for x in a.kwonlyargs].index(p)
+            del a.kwonlyargs[i]
+            del a.kw_defaults[i]
+        else:
+            i = [x.arg for x in a.args].index(p)
+            di = i - (len(a.args) - len(a.defaults))
+            del a.args[i]
+            if di >= 0:
+                del a.defaults[di]
+        _fold_constant_tests(f.node)
+        ast.fix_missing_locations(f.node)
 
     def bound_args(self, f, call):
         """parameter name -> argument expression for a call made inside function `f`, when the callee resolves inside the package
